@@ -10,10 +10,11 @@ Driver for the generator-folder cache model, run with the table extracted from t
          c<n>:<k>   run interrupted before its k-th file effect (k >= number of effects: completes)
          t<n>:<k>   run interrupted inside the pickle.dump of its k-th file effect
          d<file>    user deletes seeds|hashes|infra|count|ts
+         x<i>       user deletes the emission file of simulation i
     -> one record per op, joined by " | ":
        <outcome> <effects> <mem> seeds=.. hashes=.. infra=.. count=.. ts=.. emis=[..]
        outcome: - (no run) | done | fail (loud failure) | crash
-       effects: executed file effects, e.g. [S3,rm:count,H,I,E0,E1,C2,T]; a torn one is prefixed ~
+       effects: executed file effects, e.g. [S3,rm:count,H,I,E0,E1,C2,T0.25] (T<first day>.<days>); a torn one is prefixed ~
        mem:     generation of the infrastructure in memory when the run completed (vv 'g' gid) or -
        file:    - absent, T torn, else content
   table                         -> the extracted table (for the evidence)
@@ -44,12 +45,12 @@ def showStep : Step → String
   | .wrInfra _ => "I"
   | .wrEmis i _ => s!"E{i}"
   | .wrCount n => s!"C{n}"
-  | .wrTs => "T"
+  | .wrTs p => s!"T{p.1}.{p.2}"
   | .rm f => s!"rm:{showFileId f}"
 
 def showDisk (b : Nat) (d : Disk) : String :=
   s!"seeds={showFile toString d.seeds} hashes={showFile showStore d.hashes} infra={showFile showGen d.infra} " ++
-  s!"count={showFile toString d.count} ts={showFile (fun _ => "ok") d.ts} " ++
+  s!"count={showFile toString d.count} ts={showFile (fun (p : Nat × Nat) => s!"{p.1}.{p.2}") d.ts} " ++
   "emis=" ++ showList (fun i => showFile showGen (d.emis i)) (List.range b)
 
 def parseFileId : String → Option FileId
@@ -72,12 +73,14 @@ def parseOp (s : String) : Option Op :=
   | some 'c' => (parsePair rest).map fun (n, k) => .crash n k
   | some 't' => (parsePair rest).map fun (n, k) => .tear n k
   | some 'd' => (parseFileId rest).map .del
+  | some 'x' => rest.toNat?.map .delEmis
   | _ => none
 
 /-- outcome, executed effects, mem of one op (the state change itself is `exec`) -/
 def describe (s : St) : Op → String
   | .edit _ _ => "- - -"
   | .del _ => "- - -"
+  | .delEmis _ => "- - -"
   | .run n =>
     let p := nextPlan tblD s n
     let st := showList showStep p.steps
@@ -116,7 +119,7 @@ def showTbl (t : Tbl) : String :=
   s!"hashedFresh={pr t.hashedFresh} hashedRegen={pr t.hashedRegen} compared={pr t.compared} " ++
   s!"required={showList showFileId t.required} freshOps={showList showIOp t.freshOps} " ++
   s!"regenOps={showList showIOp t.regenOps} emisRegen={showList showPhase t.emisRegen} " ++
-  s!"emisExtend={showList showPhase t.emisExtend}"
+  s!"emisExtend={showList showPhase t.emisExtend} tsExact={showBool t.tsExact}"
 
 def step (_ : Unit) (toks : List String) : Unit × String :=
   match toks with
